@@ -511,10 +511,10 @@ def _model_for_path(st: State, timeout_ms: int):
 def string_facts(st: State) -> list:
     """Ground facts about the uninterpreted string predicates (startswith, endswith, ...) with literal arguments: on every
     interned literal the predicate has its real value."""
-    from .builtins_model import STRPREDS
+    from .builtins_model import STRPREDS, bit_theory_facts
     from .values import STR
 
-    out = []
+    out = bit_theory_facts()
     for (fname, args) in list(STRPREDS):
         fn = z3.Function("str_" + fname, *([z3.IntSort()] * (1 + len(args))), z3.BoolSort())
         codes = [STR.lit(x) for x in args]
